@@ -204,7 +204,20 @@ def enum_case(kind, mask, transpose):
             'transpose': transpose, 'op': 'solve'}
 
 
+# regression inputs of repaired defects (run in every tier, shard 0)
+REGRESSIONS = [
+    # D28: the solution's pattern must be widened until it is stable (a diagonal of the running pattern has to be split twice)
+    {'mode': 'patterned', 'kind': 'real',
+     'a': {'paxes': [2, 2, 2, 2], 'vaxes': [{'prod': [{'p': 0}, {'p': 1}, {'p': 2}]}, {'prod': [{'p': 0}, {'p': 3}, {'p': 1}]}],
+           'phys': [0.125], 'bcast': [0, 1, 2, 3], 'default': 0.0, 'dtype': 'float64'},
+     'b': {'paxes': [2], 'vaxes': [{'prod': [{'p': 0}, {'p': 0}, {'p': 0}]}], 'phys': [1.0], 'bcast': [0], 'default': 0.0, 'dtype': 'float64'},
+     'share': []},
+]
+
+
 def enumerate_cases(tier, shard, nshards):
+    if shard == 0:
+        for c in REGRESSIONS: yield c
     i = 0
     for kind in ('real', 'bool'):
         for mask in range(512):
